@@ -148,7 +148,11 @@ class FaultySimBackend(UserBlackboxBackend):
         t = event.trial_id
         cur = self.dst_cur[t]
         res = event.result
-        self.dst_sim.log("w.report", trial=t, run=cur["run"], level=int(res[RESOURCE_ATTR]), idx=cur["idx"], sn=res.get("sn"),
+        # position in the run's own sequence of reports (the order in which the job produced them), not the order in
+        # in which the event heap happens to release them
+        plan_sn = [sn for _, sn in cur.get("plan", [])]
+        idx = plan_sn.index(res.get("sn")) if res.get("sn") in plan_sn else cur["idx"]
+        self.dst_sim.log("w.report", trial=t, run=cur["run"], level=int(res[RESOURCE_ATTR]), idx=idx, sn=res.get("sn"),
                          values=canon({k: v for k, v in res.items()}), tk=time_event)
         cur["idx"] += 1
 
